@@ -61,6 +61,39 @@ func timeExists(y, m, d, h, mi, s int) bool {
 	return yy == y && int(mm) == m && dd == d && hh == h && mmi == mi && ss == s
 }
 
+type onceListener struct{ got chan *types.Status }
+
+func (l *onceListener) OnConnected() {}
+func (l *onceListener) OnEvent(s *types.Status) {
+	c := *s
+	select {
+	case l.got <- &c:
+	default:
+	}
+}
+func (l *onceListener) OnError(err error) bool { return true }
+
+// listenOnce feeds one datagram to the event listener (scripted transport) and returns the status it delivers
+func listenOnce(msg []byte) *types.Status {
+	u, d := stubClient(clientCfg{Listen: "127.0.0.1:60001"})
+	d.events = [][]byte{msg}
+	l := &onceListener{got: make(chan *types.Status, 1)}
+	q := make(chan os.Signal, 1)
+	done := make(chan struct{})
+	go func() { u.Listen(l, q); close(done) }()
+	var st *types.Status
+	select {
+	case st = <-l.got:
+	case <-time.After(2 * time.Second):
+	}
+	q <- os.Interrupt
+	select {
+	case <-done:
+	case <-time.After(2 * time.Second):
+	}
+	return st
+}
+
 func runC13(o *opts) (*summary, error) {
 	w, err := newShardWriter(o.out, "pure", o.shards)
 	if err != nil {
@@ -221,6 +254,19 @@ func runC13(o *opts) (*summary, error) {
 					}
 					st, err := u.GetStatus(12345)
 					if err != nil || st == nil {
+						return M{"t": "err"}, nil
+					}
+					return projDateTime(st.SystemDateTime), nil
+				})
+				// the same bytes arriving as an event: the listener recombines date and time in its own code
+				emit("ListenRecombine", "datetime", class, cdt, tex, func() (M, []byte) {
+					msg := make([]byte, 64)
+					msg[0], msg[1] = 0x17, 0x20
+					copy(msg[4:8], []byte{0x39, 0x30, 0, 0})
+					copy(msg[51:54], []byte{bcd2(y % 100), bcd2(m), bcd2(dd)})
+					copy(msg[37:40], []byte{bcd2(h), bcd2(mi), bcd2(s)})
+					st := listenOnce(msg)
+					if st == nil {
 						return M{"t": "err"}, nil
 					}
 					return projDateTime(st.SystemDateTime), nil
